@@ -128,6 +128,23 @@ let answer kw =
         | 5 -> OEmpty | 6 -> ODumpTop | _ -> OCheck) in
       let outs = orun (ocreate (nat_of_int len)) ops in
       String.concat "|" (List.map (fun ll -> String.concat ";" (List.map (fun l -> String.concat "," (List.map (fun b -> string_of_int (int_of_nat b)) l)) ll)) outs)
+  | "RG" ->
+      (* strict, terms (name code), rules (lhs nrhs rhs.. anode cost ntr tr..) -> model code, well-formed, defect_b for codes 4..16 *)
+      let strict = next () <> 0 in
+      let nt = next () in
+      let terms = times nt (fun () -> let n = next () in let c = next () in (nat_of_int n, z_of_int c)) in
+      let nr = next () in
+      let rules = times nr (fun () ->
+        let l = next () in let n = next () in
+        let rhs = times n (fun () -> nat_of_int (next ())) in
+        let an = next () in let cost = next () in
+        let k = next () in
+        let tr = times k (fun () -> z_of_int (next ())) in
+        { r_lhs = nat_of_int l; r_rhs = rhs; r_anode = (an <> 0); r_cost = z_of_int cost; r_transl = tr }) in
+      let code = int_of_z (read_model strict terms rules) in
+      let wf = well_formed_b strict terms rules in
+      let ds = List.map (fun c -> b2s (defect_b strict terms rules (z_of_int c))) [4;5;6;7;8;9;10;11;12;13;14;15;16] in
+      string_of_int code ^ " " ^ b2s wf ^ " " ^ String.concat "" ds
   | _ -> "error unknown query " ^ kw
 
 let () =
